@@ -25,6 +25,7 @@ def lru_slices(q_n, q_len, bfs_caps, bfs_states):
     return [
         dict(name="lru-bfs", slice="lru_bfs", args=["--n", bfs_caps, "--len", bfs_states], shards=8),
         dict(name="lru-rand", slice="lru", args=["--n", q_n, "--len", q_len], shards=8),
+        dict(name="lru-big", slice="lru", args=["--n", 60 if q_n >= 10000 else 8, "--len", 6000, "--big", 1], shards=4),
     ]
 
 
@@ -35,7 +36,26 @@ def comp_slices(n, ln, lfu_n):
         dict(name="arc", slice="arc", args=["--n", n, "--len", ln], shards=4),
         dict(name="wtiny", slice="wtiny", args=["--n", lfu_n, "--len", ln], shards=4),
         comp_bfs(n >= 10000),
-    ]
+    ] + comp_big(n >= 10000)
+
+
+def comp_big(thorough, which=("slru", "twoq", "arc", "wtiny")):
+    """a few long histories on caches of hundreds of entries (thresholds that small configurations never reach)"""
+    return [dict(name=w + "-big", slice=w, args=["--n", 40 if thorough else 4, "--len", 6000, "--big", 1], shards=4) for w in which]
+
+
+def types_slice(thorough):
+    """the five cache types over other key / value types (tracked key + plain value, plain key + tracked value, Strings,
+    an over-aligned Copy value): code paths chosen by the types; judged on the implementation alone (kind 16)"""
+    return dict(name="types", slice="types", args=["--n", 30000 if thorough else 900, "--len", 300 if thorough else 120],
+                shards=8 if thorough else 4, model=False)
+
+
+def liar_slice(thorough):
+    """RawLRU under a hasher whose answers change while keys are stored (safe code: a key with interior state read by its
+    Hash): judged on the implementation alone by the weak invariant of layer F, the ledger and the poison (kind 17)"""
+    return dict(name="lruliar", slice="lruliar", args=["--n", 40000 if thorough else 1500, "--len", 200 if thorough else 120],
+                shards=8 if thorough else 4, model=False)
 
 
 def comp_bfs(thorough):
@@ -69,11 +89,13 @@ PROPS = {
         theorems={"C02": ["C02_spec_step_def", "C02_lru_history", "C02_slru_history", "C02_twoq_history", "C02_arc_history",
                           "C02_wtiny_history", "C02_slru_step", "C02_twoq_step", "C02_arc_step", "C02_wtiny_step",
                           "C02_never_wrong", "C02_released_not_reported", "C02_lookup_is_retained", "C02_lookups_agree"]},
-        slices=dict(quick=lru_slices(1500, 150, 2, 100000) + comp_slices(2500, 150, 1200),
-                    thorough=lru_slices(30000, 400, 3, 1000000) + comp_slices(40000, 400, 20000)),
+        slices=dict(quick=lru_slices(1500, 150, 2, 100000) + comp_slices(2500, 150, 1200) +
+                          [dict(name="ctor", slice="ctor", args=["--n", 60, "--len", 150], shards=2), types_slice(False)],
+                    thorough=lru_slices(30000, 400, 3, 1000000) + comp_slices(40000, 400, 20000) +
+                             [dict(name="ctor", slice="ctor", args=["--n", 4000, "--len", 300], shards=8), types_slice(True)]),
         corpus=ALL_CORPUS,
         monitors=["mon_c02"],
-        partial="keys are drop-tracked integers looked up through a distinct borrowed type (Borrow<KQ> for TKey); heap-owning String keys looked up via &str are not exercised",
+        partial="in the histories given to the model keys are drop-tracked integers looked up through a distinct borrowed type (Borrow<KQ> for TKey); other key / value types (String keys and values, plain integers, an over-aligned Copy value) are exercised on the implementation alone (types slice: a lookup returns the value stored last)",
         assumptions=["std HashMap / hashbrown implement a finite map under every BuildHasher (checked only through the five hashers of the harness)"],
     ),
     "C03": dict(
@@ -90,14 +112,14 @@ PROPS = {
                            dict(name="htwoq", slice="htwoq", args=["--n", 1600, "--len", 120], shards=4),
                            dict(name="harc", slice="harc", args=["--n", 1600, "--len", 120], shards=4),
                            dict(name="hwtiny", slice="hwtiny", args=["--n", 1600, "--len", 120], shards=4),
-                           dict(name="ctor", slice="ctor", args=["--n", 60, "--len", 150], shards=2)]
+                           dict(name="ctor", slice="ctor", args=["--n", 60, "--len", 150], shards=2), types_slice(False), liar_slice(False)]
                     + lru_slices(800, 150, 2, 100000) + comp_slices(1500, 150, 800),
                     thorough=[dict(name="hlru", slice="hlru", args=["--n", 60000, "--len", 300], shards=16),
                               dict(name="hslru", slice="hslru", args=["--n", 60000, "--len", 300], shards=16),
                               dict(name="htwoq", slice="htwoq", args=["--n", 40000, "--len", 300], shards=16),
                               dict(name="harc", slice="harc", args=["--n", 40000, "--len", 300], shards=16),
                               dict(name="hwtiny", slice="hwtiny", args=["--n", 40000, "--len", 300], shards=16),
-                              dict(name="ctor", slice="ctor", args=["--n", 4000, "--len", 300], shards=8)]
+                              dict(name="ctor", slice="ctor", args=["--n", 4000, "--len", 300], shards=8), types_slice(True), liar_slice(True)]
                     + lru_slices(30000, 400, 3, 1000000) + comp_slices(30000, 400, 15000)),
         corpus=ALL_CORPUS + ["hlru", "hslru", "htwoq", "harc", "hwtiny"],
         monitors=["mon_c03"],
@@ -133,9 +155,9 @@ PROPS = {
         theorems={"C04": ["C04_put_conserves", "C04_lru_put", "C04_slru_put", "C04_twoq_put", "C04_arc_put", "C04_wtiny_put",
                           "C04_remove_and_purge", "C04_heap_owned", "C04_heap_family_owned"]},
         slices=dict(quick=lru_slices(1500, 150, 2, 100000) + comp_slices(2500, 150, 1200) +
-                          [dict(name="ctor", slice="ctor", args=["--n", 60, "--len", 150], shards=2)],
+                          [dict(name="ctor", slice="ctor", args=["--n", 60, "--len", 150], shards=2), types_slice(False), liar_slice(False)],
                     thorough=lru_slices(30000, 400, 3, 1000000) + comp_slices(40000, 400, 20000) +
-                             [dict(name="ctor", slice="ctor", args=["--n", 4000, "--len", 300], shards=8)]),
+                             [dict(name="ctor", slice="ctor", args=["--n", 4000, "--len", 300], shards=8), types_slice(True), liar_slice(True)]),
         corpus=ALL_CORPUS,
         monitors=["mon_c04"],
         partial="object-level release-exactly-once is carried by the correspondence run (drop ledger + allocator), not by a theorem; a double free invisible to the quarantining allocator is outside both",
@@ -155,8 +177,9 @@ PROPS = {
             quick=lru_slices(800, 150, 1, 100000) + comp_slices(800, 150, 500)
             + [dict(name="tiny", slice="tiny", args=["--n", 600, "--len", 150], shards=2),
                dict(name="sampled", slice="sampled", args=["--n", 400, "--len", 100], shards=2),
+               dict(name="sampled-huge", slice="sampled", args=["--n", 100, "--len", 100, "--big", 1], shards=2, model=False),
                dict(name="ctor", slice="ctor", args=["--n", 60, "--len", 150], shards=2),
-               dict(name="lruhuge", slice="lruhuge", args=["--n", 600, "--len", 120], shards=2, model=False),
+               dict(name="lruhuge", slice="lruhuge", args=["--n", 600, "--len", 120], shards=2, model=False), types_slice(False),
                dict(name="ctor-nostd", slice="ctor", args=["--n", 20, "--len", 100], shards=1, features="nostd"),
                dict(name="tiny-nostd", slice="tiny", args=["--n", 600, "--len", 150], shards=2, features="nostd"),
                dict(name="wtiny-nostd", slice="wtiny", args=["--n", 400, "--len", 150], shards=2, features="nostd"),
@@ -165,8 +188,9 @@ PROPS = {
             thorough=lru_slices(20000, 400, 3, 1000000) + comp_slices(20000, 400, 10000)
             + [dict(name="tiny", slice="tiny", args=["--n", 20000, "--len", 400], shards=8),
                dict(name="sampled", slice="sampled", args=["--n", 8000, "--len", 300], shards=4),
+               dict(name="sampled-huge", slice="sampled", args=["--n", 2000, "--len", 300, "--big", 1], shards=4, model=False),
                dict(name="ctor", slice="ctor", args=["--n", 4000, "--len", 300], shards=8),
-               dict(name="lruhuge", slice="lruhuge", args=["--n", 20000, "--len", 300], shards=8, model=False),
+               dict(name="lruhuge", slice="lruhuge", args=["--n", 20000, "--len", 300], shards=8, model=False), types_slice(True),
                dict(name="ctor-nostd", slice="ctor", args=["--n", 1000, "--len", 300], shards=4, features="nostd"),
                dict(name="tiny-nostd", slice="tiny", args=["--n", 20000, "--len", 400], shards=8, features="nostd"),
                dict(name="wtiny-nostd", slice="wtiny", args=["--n", 8000, "--len", 400], shards=8, features="nostd"),
@@ -253,8 +277,10 @@ PROPS = {
         props_files=["C20"],
         theorems={"C20": ["C20_room_left_exact", "C20_room_left_exact_in_range", "C20_tracked_keys_distinct", "C20_update_reports_tracked",
                           "C20_remove_reports_cost", "C20_fill_sample"]},
-        slices=dict(quick=[dict(name="sampled", slice="sampled", args=["--n", 4000, "--len", 150], shards=8)],
-                    thorough=[dict(name="sampled", slice="sampled", args=["--n", 80000, "--len", 400], shards=16)]),
+        slices=dict(quick=[dict(name="sampled", slice="sampled", args=["--n", 4000, "--len", 150], shards=8),
+                           dict(name="sampled-huge", slice="sampled", args=["--n", 300, "--len", 150, "--big", 1], shards=4, model=False)],
+                    thorough=[dict(name="sampled", slice="sampled", args=["--n", 80000, "--len", 400], shards=16),
+                              dict(name="sampled-huge", slice="sampled", args=["--n", 6000, "--len", 400, "--big", 1], shards=8, model=False)]),
         corpus=["sampled"],
         monitors=["mon_c20"],
         assumptions=["costs and capacities are i64 values; the model computes in the same wrapping arithmetic (w64)",
@@ -267,8 +293,8 @@ PROPS = {
                           "C07_probationary_hit_promotes_put", "C07_promotion_never_evicts",
                           "C07_protected_hit_refreshes_get", "C07_protected_hit_refreshes_put",
                           "C07_miss_changes_nothing", "C07_put_protected"]},
-        slices=dict(quick=[dict(name="slru", slice="slru", args=["--n", 6000, "--len", 150], shards=12), comp_bfs(False)],
-                    thorough=[dict(name="slru", slice="slru", args=["--n", 120000, "--len", 400], shards=16), comp_bfs(True)]),
+        slices=dict(quick=[dict(name="slru", slice="slru", args=["--n", 6000, "--len", 150], shards=12), comp_bfs(False)] + comp_big(False, ("slru",)),
+                    thorough=[dict(name="slru", slice="slru", args=["--n", 120000, "--len", 400], shards=16), comp_bfs(True)] + comp_big(True, ("slru",))),
         corpus=["slru"],
         monitors=["mon_c07", "mon_c01"],
         assumptions=["put_protected of a new key into a full protected segment evicts protected's own least-recent entry "
@@ -285,12 +311,12 @@ PROPS = {
                            dict(name="ctor", slice="ctor", args=["--n", 60, "--len", 150], shards=2),
                            dict(name="ctor-nostd", slice="ctor", args=["--n", 60, "--len", 150], shards=2, features="nostd"),
                            dict(name="twoq-nostd", slice="twoq", args=["--n", 1500, "--len", 150], shards=4, features="nostd"),
-                           comp_bfs(False)],
+                           comp_bfs(False)] + comp_big(False, ("twoq",)),
                     thorough=[dict(name="twoq", slice="twoq", args=["--n", 120000, "--len", 400], shards=16),
                               dict(name="ctor", slice="ctor", args=["--n", 4000, "--len", 300], shards=8),
                               dict(name="ctor-nostd", slice="ctor", args=["--n", 4000, "--len", 300], shards=8, features="nostd"),
                               dict(name="twoq-nostd", slice="twoq", args=["--n", 30000, "--len", 400], shards=16, features="nostd"),
-                              comp_bfs(True)]),
+                              comp_bfs(True)] + comp_big(True, ("twoq",))),
         corpus=["twoq"],
         monitors=["mon_c08", "mon_c01"],
         assumptions=["quota and ghost capacity are read from the real cache through the verif-hooks accessor and compared with floor(size*ratio) computed by the harness"],
@@ -301,8 +327,8 @@ PROPS = {
         theorems={"C09": ["C09_reachable", "C09_replace", "C09_promotion_put", "C09_promotion_get",
                           "C09_frequent_hit_put", "C09_frequent_hit_get", "C09_get_miss", "C09_recent_ghost_hit",
                           "C09_frequent_ghost_hit", "C09_new_key"]},
-        slices=dict(quick=[dict(name="arc", slice="arc", args=["--n", 6000, "--len", 150], shards=12), comp_bfs(False)],
-                    thorough=[dict(name="arc", slice="arc", args=["--n", 120000, "--len", 400], shards=16), comp_bfs(True)]),
+        slices=dict(quick=[dict(name="arc", slice="arc", args=["--n", 6000, "--len", 150], shards=12), comp_bfs(False)] + comp_big(False, ("arc",)),
+                    thorough=[dict(name="arc", slice="arc", args=["--n", 120000, "--len", 400], shards=16), comp_bfs(True)] + comp_big(True, ("arc",))),
         corpus=["arc"],
         monitors=["mon_c09", "mon_c01"],
         assumptions=["the four lists and p are read through the verif-hooks accessor / partition()"],
@@ -314,9 +340,9 @@ PROPS = {
                           "C10_admission_filter", "C10_get_records_access", "C10_purge_clears_estimator",
                           "C10_window_hit_moves_to_protected", "C10_main_hit_put"]},
         slices=dict(quick=[dict(name="wtiny", slice="wtiny", args=["--n", 3000, "--len", 150], shards=12),
-                           dict(name="wtiny-nostd", slice="wtiny", args=["--n", 600, "--len", 150], shards=4, features="nostd")],
+                           dict(name="wtiny-nostd", slice="wtiny", args=["--n", 600, "--len", 150], shards=4, features="nostd")] + comp_big(False, ("wtiny",)),
                     thorough=[dict(name="wtiny", slice="wtiny", args=["--n", 60000, "--len", 400], shards=16),
-                              dict(name="wtiny-nostd", slice="wtiny", args=["--n", 15000, "--len", 400], shards=16, features="nostd")]),
+                              dict(name="wtiny-nostd", slice="wtiny", args=["--n", 15000, "--len", 400], shards=16, features="nostd")] + comp_big(True, ("wtiny",))),
         corpus=["wtiny"],
         monitors=["mon_c10", "mon_c01"],
         assumptions=["sketch seeds and Bloom geometry are read from the real estimator through the verif-hooks accessor and validated (bloom_geometry_ok)",
@@ -370,10 +396,10 @@ PROPS = {
                           "C14_clone_independent", "C14_heap_iter", "C14_heap_family_iter"]},
         slices=dict(quick=lru_slices(3000, 150, 2, 100000)
                     + [dict(name="twoq", slice="twoq", args=["--n", 2500, "--len", 150], shards=4),
-                       dict(name="arc", slice="arc", args=["--n", 2500, "--len", 150], shards=4)],
+                       dict(name="arc", slice="arc", args=["--n", 2500, "--len", 150], shards=4)] + comp_big(False, ("twoq", "arc")),
                     thorough=lru_slices(60000, 400, 3, 1000000)
                     + [dict(name="twoq", slice="twoq", args=["--n", 40000, "--len", 400], shards=8),
-                       dict(name="arc", slice="arc", args=["--n", 40000, "--len", 400], shards=8)]),
+                       dict(name="arc", slice="arc", args=["--n", 40000, "--len", 400], shards=8)] + comp_big(True, ("twoq", "arc"))),
         corpus=["lru", "twoq", "arc"],
         monitors=["mon_c14"],
         partial="the pointer-level iterators (C14_heap_iter, C14_heap_family_iter: cursors only ever dereference linked nodes, hand out pairwise distinct nodes, yield the items of the list-level machine and store exactly the writes, leaving the other lists of a composite cache untouched) are proved equal to the list-level machine, which is what is executed against the code; only the tail-side cursor is itself executed against the code (through Clone in the heap-level kinds)",
@@ -393,7 +419,10 @@ PROPS = {
         props_files=["C06"],
         theorems={"C06": ["C06_recency_order", "C06_eviction_takes_lru", "C06_peek_lru", "C06_remove_lru",
                           "C06_get_lru", "C06_mru", "C06_resize", "C06_reads_keep_order", "C06_step"]},
-        slices=dict(quick=lru_slices(3000, 150, 2, 100000), thorough=lru_slices(60000, 400, 3, 1000000)),
+        slices=dict(quick=lru_slices(3000, 150, 2, 100000) +
+                          [dict(name="lruhuge", slice="lruhuge", args=["--n", 600, "--len", 120], shards=2, model=False)],
+                    thorough=lru_slices(60000, 400, 3, 1000000) +
+                             [dict(name="lruhuge", slice="lruhuge", args=["--n", 20000, "--len", 300], shards=8, model=False)]),
         corpus=["lru"],
         monitors=["mon_c06"],
         assumptions=["std HashMap / hashbrown behave as a finite map (the index of the list)"],
